@@ -227,7 +227,14 @@ fn gen_hosts(ctx: &mut Ctx) -> Hosts {
 
 pub fn run(ctx: &mut Ctx) {
     let files = Files::new();
-    let alpn_pool: Vec<Vec<u8>> = vec![b"h3".to_vec(), b"h2".to_vec(), b"http/1.1".to_vec(), b"spdy/3".to_vec(), vec![0xff, 0xfe], b"H2".to_vec()];
+    // the three identifiers (twice, to keep them frequent), and unknown ones - among them look-alikes that extend, shorten or
+    // re-case a known identifier (matching is by equality)
+    let alpn_pool: Vec<Vec<u8>> = vec![
+        b"h3".to_vec(), b"h2".to_vec(), b"http/1.1".to_vec(), b"h3".to_vec(), b"h2".to_vec(), b"http/1.1".to_vec(),
+        b"spdy/3".to_vec(), vec![0xff, 0xfe], b"H2".to_vec(), b"h3-29".to_vec(), b"h3x".to_vec(), b"h2c".to_vec(), b"h22".to_vec(),
+        b"http/1.10".to_vec(), b"http/1.0".to_vec(), b"http/1".to_vec(), b"HTTP/1.1".to_vec(), b"h".to_vec(), b"H3".to_vec(), b"xh3".to_vec(),
+        vec![b'h', b'3', 0], b" h2".to_vec(),
+    ];
     let n_cfg = if ctx.thorough() { 1500 } else { 150 };
     // the same host name in two entries, for every pair of classes: refused at build time and at reload
     for from in 0..4usize {
